@@ -111,7 +111,15 @@ class EEMSWrite(SameArrayShapeMixin, Command):
                 for dimension in dimensions:
                     in_dimension_variable = dim_dataset[dimension]
                     dataset.createDimension(dimension, in_dimension_variable.size)
-                    out_dimension_variable = dataset.createVariable(dimension, in_dimension_variable.dtype, [dimension])
+                    # _FillValue can only be set while the variable is created
+                    fill_value = (
+                        in_dimension_variable.getncattr("_FillValue")
+                        if "_FillValue" in in_dimension_variable.ncattrs()
+                        else None
+                    )
+                    out_dimension_variable = dataset.createVariable(
+                        dimension, in_dimension_variable.dtype, [dimension], fill_value=fill_value
+                    )
 
                     for attribute in dir(in_dimension_variable):
                         if attribute not in dir(out_dimension_variable) and attribute not in (
@@ -121,7 +129,8 @@ class EEMSWrite(SameArrayShapeMixin, Command):
                             setattr(out_dimension_variable, attribute, getattr(in_dimension_variable, attribute))
 
                     for ncattr in in_dimension_variable.ncattrs():
-                        out_dimension_variable.setncattr(ncattr, in_dimension_variable.getncattr(ncattr))
+                        if ncattr != "_FillValue":
+                            out_dimension_variable.setncattr(ncattr, in_dimension_variable.getncattr(ncattr))
 
                     out_dimension_variable[:] = in_dimension_variable[:]
 
